@@ -1,23 +1,35 @@
 """C06 — tracked struct identities survive re-execution; dropped structs are discarded."""
 from checks_path import *  # noqa
 from seq_common import run_seq, replay_seq
+from structs_common import run_structs, replay_structs
 
 PROPERTY = 'C06'
-PROPS = ['SalsaVerif.Props.C06']
+GEN = ['LogicStructs']
+PROPS = ['SalsaVerif.Props.C06', 'SalsaVerif.Props.GenLogicStructs']
 EXPLANATION = ('Theorems about the Lean model of the tracked-struct table (identity map seeded from the previous execution, disambiguators '
                'per identity hash, slots with generation / updated_at / memos, FIFO free list, update, delete): the k-th creation of an '
                'identity gets the same (slot, generation) as in the previous execution absent hash collisions, memos are kept in that case, '
                'live handles are pairwise distinct with Live ∩ Free = ∅, a struct that is no longer created ends on the free list with no '
-               'memos, disambiguators count 0,1,2,… per hash — for every reachable world. Tied to salsa by generated programs that create '
-               '0..k structs with colliding identities conditionally: the oracle compares every result with the reference interpreter and a '
-               'monitor checks that a struct recreated with the same identity keeps its salsa Id (observed through the returned handle) '
-               'unless the creator dropped it in between.')
-ASSUMPTIONS = ['the struct model has no line-protocol driver yet: its tie to the code is the id-stability monitor and the value oracle, not a step-by-step replay',
-               'identity hash is an uninterpreted function in the model (collisions allowed)']
+               'memos, disambiguators count 0,1,2,… per hash — for every reachable world. Tied to salsa (1) step by step: `vh structs` runs '
+               'struct-heavy histories (colliding identity hashes, identity changes, re-creation after deletion, nested creators, lru '
+               'creators, injected panics, generations aged to the u32 limit, leaked handles) on real salsa with the `ts` hook class of '
+               'src/tracked_struct.rs / active_query.rs / diff_outputs.rs switched on, and `svdriver structs` replays every trace line through '
+               'the model\'s own functions (newIdentity, IdentityMap.reuse / drain, update, allocate, newStruct / step, deleteEntity, '
+               'readField), comparing disambiguator, idmap hit, update outcome, returned id and generation, tracked-field revisions, '
+               'durability, lock word, fresh slot vs FIFO free-list pop, stale list, every delete and free-list push, and evaluating the '
+               'invariant WInv of the theorems (Bool form proved equivalent in Proofs/StructsInv.lean) after every line; (2) by generated '
+               'seq programs whose results the oracle compares with the reference interpreter, with a monitor that a struct recreated with '
+               'the same identity keeps its salsa Id unless the creator dropped it in between.')
+ASSUMPTIONS = ['identity hash is an uninterpreted function in the model (collisions allowed); the driver feeds the traced hash and checks that it is a function of the identity value',
+               'field values are not visible to the hooks: the struct harness announces them in `note` lines (a harness that lied would be caught only through the revision / identity-change outcomes)',
+               'hash-table iteration order of the active list is an input to the model (checked to be a permutation)',
+               'outside the model, cut short and counted (info.cases_cut_short_as_unmodelled): fixpoint iterations (seed_iteration), an unwind that starts inside clear_memos of an identity-changed update, and an execution aborted by a panic after it already replaced an id by its next generation (the creator\'s memo then keeps the old generation: see the report in DESIGN.md / known findings)',
+               'the delete cascade through memos stored in a deleted struct is replayed in its real nested order with deleteEntity per id (the World op `discard` of the theorems is the sequential approximation)']
 
 def ties(ctx):
     n = 2500 if ctx.tier == 'quick' else 200000
-    return [run_seq(ctx, 'full', n, seed_offset=6, corpus='C06'), run_seq(ctx, 'spec', n, seed_offset=7)]
+    k = 1500 if ctx.tier == 'quick' else 100000
+    return [run_structs(ctx, k, seed_offset=61), run_seq(ctx, 'full', n, seed_offset=6, corpus='C06', structs_trace=True), run_seq(ctx, 'spec', n, seed_offset=7, structs_trace=True)]
 
 def search(ctx, reason):
     t = run_seq(ctx, 'full', 300000, seed_offset=93, tag='search-full')
@@ -27,4 +39,6 @@ def search(ctx, reason):
     return None
 
 def replay(ctx, path):
+    if path.endswith('.trace'):
+        return replay_structs(ctx, path)
     return replay_seq(ctx, path)
